@@ -26,6 +26,20 @@ type c12sym struct {
 	method string
 	// SETUP parameters
 	track, tr, mode string
+	raw             string // tr == "bad": the Transport header verbatim
+}
+
+// c12BadTransports: invalid Transport headers - a contradictory or malformed parameter, alone and followed by a
+// well-formed parameter (a later parameter must not make an earlier problem forgotten).
+var c12BadTransports = map[string]string{
+	"tcpmcast":         "RTP/AVP/TCP;multicast;interleaved=0-1",
+	"interleaved":      "RTP/AVP/TCP;unicast;interleaved=x-y",
+	"clientport":       "RTP/AVP;unicast;client_port=abc",
+	"tcpmcast_ttl":     "RTP/AVP/TCP;multicast;interleaved=0-1;ttl=16",
+	"interleaved_ttl":  "RTP/AVP/TCP;unicast;interleaved=x-y;ttl=16",
+	"clientport_ttl":   "RTP/AVP;unicast;client_port=abc;ttl=16",
+	"interleaved_ssrc": "RTP/AVP/TCP;unicast;interleaved=x-y;ssrc=0A0B0C0D",
+	"clientport_dest":  "RTP/AVP;unicast;client_port=abc;destination=127.0.0.1",
 }
 
 func c12Alphabet() []c12sym {
@@ -46,6 +60,8 @@ func c12Alphabet() []c12sym {
 	}
 	a = append(a,
 		c12sym{name: "SETUP_badtransport", method: "SETUP", track: "v", tr: "bad", mode: "play"},
+		c12sym{name: "SETUP_bad_interleaved_ttl", method: "SETUP", track: "v", tr: "bad", mode: "play", raw: c12BadTransports["interleaved_ttl"]},
+		c12sym{name: "SETUP_bad_tcpmcast_ttl_record", method: "SETUP", track: "v", tr: "bad", mode: "record", raw: c12BadTransports["tcpmcast_ttl"]},
 		c12sym{name: "SETUP_unknowncontrol", method: "SETUP", track: "x", tr: "tcp", mode: "play"},
 		c12sym{name: "PLAY", method: "PLAY"},
 		c12sym{name: "RECORD", method: "RECORD"},
@@ -227,6 +243,9 @@ func c12Request(c *kit.RTSPClient, env *c12env, s c12sym, recPath string, curPat
 			t = "RTP/AVP;multicast"
 		default:
 			t = "BOGUS"
+			if s.raw != "" {
+				t = s.raw
+			}
 		}
 		if s.mode == "record" {
 			t += ";mode=record"
@@ -543,6 +562,21 @@ func runC12(c *kit.Ctx) {
 		for _, s := range alpha {
 			gen(alpha, append(prefix, s), depth-1, tag)
 		}
+	}
+	// directed: every invalid transport between a successful DESCRIBE / ANNOUNCE and PLAY / RECORD
+	for _, k := range []string{"tcpmcast", "interleaved", "clientport", "tcpmcast_ttl", "interleaved_ttl", "clientport_ttl", "interleaved_ssrc", "clientport_dest"} {
+		bp := c12sym{name: "SETUP_bad_" + k, method: "SETUP", track: "v", tr: "bad", mode: "play", raw: c12BadTransports[k]}
+		br := c12sym{name: "SETUP_bad_" + k + "_record", method: "SETUP", track: "v", tr: "bad", mode: "record", raw: c12BadTransports[k]}
+		find := func(n string) c12sym {
+			for _, x := range full {
+				if x.name == n {
+					return x
+				}
+			}
+			return c12sym{name: n, method: n}
+		}
+		jobs = append(jobs, job{[]c12sym{find("DESCRIBE"), bp, find("PLAY"), find("OPTIONS")}, "directed:DESCRIBE," + bp.name + ",PLAY,OPTIONS,"},
+			job{[]c12sym{find("ANNOUNCE"), br, find("RECORD"), find("OPTIONS")}, "directed:ANNOUNCE," + br.name + ",RECORD,OPTIONS,"})
 	}
 	gen(full, nil, c.Pick(2, 3), "full")
 	gen(red, nil, c.Pick(4, 5), "reduced")
